@@ -82,7 +82,36 @@ theorem scripts_per_number (D : Decoders) (rs : List Res) (names : J) (refs : Li
   rw [scriptLoop_eq_fold D rs names refs outs hd] at h
   exact foldScripts_per_key outs [] [] l j h n
 
+/-- (5) Mac = PC. The container's byte order enters the assembly only through the key table (`KEY*` is the one chunk stored in
+    container order; every other chunk is big-endian in both encodings). Two resource tables that agree everywhere except in the
+    bytes of their `KEY*` entries, whose key tables decode — each under its own byte order — to the same links, assemble to the same
+    movie, provided no table of the movie (cast table, key links, script context) points at the key table itself. Together with
+    `parseDir_resolves` (both encodings resolve to such tables) and C17's `key_mac_pc` (the key model decodes both encodings alike)
+    this is "the result is the same for the Mac and PC encodings of one movie". -/
+theorem mac_equals_pc (D : Decoders) (rsB rsL : List Res) (hag : AgreeOffKey rsB rsL)
+    (kB kL : Riff.Chunk) (resB resL : Res)
+    (hB : locateChunk rsB "KEY*" = .ok resB) (hB' : resB.chunk = .ok kB)
+    (hL : locateChunk rsL "KEY*" = .ok resL) (hL' : resL.chunk = .ok kL)
+    (key : KeyData) (hkB : D.key .be kB.data = .ok key) (hkL : D.key .le kL.data = .ok key)
+    (hcas : CasAvoidsKey D rsB) (hlinks : LinksAvoidKey rsB key) (hlctx : LctxAvoidsKey D rsB) :
+    assemble D .be rsB = assemble D .le rsL :=
+  assemble_mac_pc D rsB rsL hag kB kL resB resL hB hB' hL hL' key hkB hkL hcas hlinks hlctx
+
 /-! ### non-vacuity -/
+
+-- two tables that differ only in the bytes of the KEY* entry
+def exResB : List Res := [⟨"KEY*".toList, .ok ⟨"KEY*".toList, [0, 1]⟩⟩, ⟨"CASt".toList, .ok ⟨"CASt".toList, [7]⟩⟩]
+def exResL : List Res := [⟨"KEY*".toList, .ok ⟨"KEY*".toList, [1, 0]⟩⟩, ⟨"CASt".toList, .ok ⟨"CASt".toList, [7]⟩⟩]
+example : AgreeOffKey exResB exResL := by
+  refine ⟨rfl, ?_, rfl, ?_, trivial⟩
+  · intro h; exact absurd rfl h
+  · intro _; rfl
+example : LinksAvoidKey exResB [(1, [⟨"CASt".toList, 1⟩])] := by
+  intro p hp rf hrf r hr
+  simp at hp; subst hp; simp at hrf; subst hrf
+  have : pyIndex exResB 1 = .ok ⟨"CASt".toList, .ok ⟨"CASt".toList, [7]⟩⟩ := by rfl
+  rw [this] at hr; cases hr; decide
+
 
 def exOuts : List ScriptOut := [⟨3, -1, "a".toList, "A".toList⟩, ⟨9, -1, "b".toList, "B".toList⟩, ⟨100, 3, "c".toList, "C".toList⟩]
 example : foldScripts exOuts [] [] = .ok ([(3, "a\nc".toList), (9, "b".toList)], [(3, "A\nC".toList), (9, "B".toList)]) := by rfl
